@@ -37,7 +37,7 @@ func (hostile) Runs(tier string) int64 {
 	if tier == "thorough" {
 		return 6000000
 	}
-	return 60000
+	return 100000
 }
 
 func (hostile) Meta() core.EngineMeta {
